@@ -363,6 +363,47 @@ func judge(j Judge, res []RunResult, runErr error) (confirmed bool, observed any
 		raw, _ := hex.DecodeString(j.ExpectHex)
 		want := fmt.Sprint(crc32.ChecksumIEEE(raw))
 		return fmt.Sprint(r.Ret) != want, map[string]any{"ret": r.Ret, "reference": want}
+	case "reencode_frame":
+		// the re-encoded frame must equal the consumed input except for the computed fields, which must be correct
+		if r.Panic != nil {
+			return true, map[string]any{"panic": *r.Panic}
+		}
+		if r.Err != nil {
+			return true, map[string]any{"err": *r.Err}
+		}
+		got, _ := hex.DecodeString(r.Buf)
+		want, _ := hex.DecodeString(j.ExpectHex)
+		fi := j.Frame
+		if len(got) != len(want) || len(got) < fi.HdrSize+fi.SumSize {
+			return true, map[string]any{"buf": r.Buf}
+		}
+		put := func(b []byte, v uint64) {
+			for i := range b {
+				if fi.Little {
+					b[i] = byte(v >> (8 * uint(i)))
+				} else {
+					b[len(b)-1-i] = byte(v >> (8 * uint(i)))
+				}
+			}
+		}
+		exp := append([]byte{}, want...)
+		if fi.LenOff >= 0 {
+			put(exp[fi.LenOff:fi.LenOff+fi.LenSize], uint64(len(exp)-fi.HdrSize-fi.SumSize))
+		}
+		if fi.Alg != "" {
+			body := exp[:len(exp)-fi.SumSize]
+			var sum uint64
+			switch fi.Alg {
+			case "SSE_BIN", "SZSE_BIN":
+				for _, b := range body {
+					sum = (sum + uint64(b)) & 0xFF
+				}
+			case "CRC32":
+				sum = uint64(crc32.ChecksumIEEE(body))
+			}
+			put(exp[len(exp)-fi.SumSize:], sum)
+		}
+		return !bytes.Equal(got, exp), map[string]any{"buf": r.Buf, "expected": hex.EncodeToString(exp)}
 	case "prefix_ne":
 		return !strings.HasPrefix(r.Buf, j.ExpectHex), map[string]any{"buf": r.Buf}
 	case "msg_ne":
